@@ -91,22 +91,35 @@ structure RowAttrs where
   action : Option Attrs := none
 deriving Repr
 
+/-- an element that exists only under a condition (`if self.action`, a question type with a control) -/
+def optEmit (c : Bool) (e : Except Err Attrs) : Except Err (Option Attrs) :=
+  if c then (match e with | .ok a => .ok (some a) | .error x => .error x) else .ok none
+
 def rowEmit (path : Str) (r : Cells) (fl : Bool) : RowK → Except Err RowAttrs
-  | .q d _ => do
-    let b ← emitBind path (sub "bind" r)
-    let a ← if typeAction r then (emitAction path (sub "action" r)).map some else pure none
-    let c ← if d.control then (emitQuestionCtl path (sub "control" r)).map fun x => [("ref".toList, x)] else pure []
-    pure { bind := some b, ctl := c, action := a }
+  | .q d _ =>
+    match emitBind path (sub "bind" r) with
+    | .error e => .error e
+    | .ok b =>
+      match optEmit (typeAction r) (emitAction path (sub "action" r)) with
+      | .error e => .error e
+      | .ok a =>
+        match optEmit d.control (emitQuestionCtl path (sub "control" r)) with
+        | .error e => .error e
+        | .ok c => .ok { bind := some b, ctl := (c.map fun x => ("ref".toList, x)).toList, action := a }
   | .begin_ ct _ _ _ =>
-    if ct = .rep then do
-      let b ← emitBind path (sub "bind" r)
-      let c ← emitRepeat path (sub "control" r)
-      pure { bind := some b, ctl := [("ref".toList, [("ref".toList, path)]), ("nodeset".toList, c)] }
-    else if fl then pure { ctl := [("ref".toList, emitGroup true path (sub "control" r))] }
-    else do
-      let b ← emitBind path (sub "bind" r)
-      pure { bind := some b, ctl := [("ref".toList, emitGroup false path (sub "control" r))] }
-  | _ => pure {}
+    if ct = .rep then
+      match emitBind path (sub "bind" r) with
+      | .error e => .error e
+      | .ok b =>
+        match emitRepeat path (sub "control" r) with
+        | .error e => .error e
+        | .ok c => .ok { bind := some b, ctl := [("ref".toList, [("ref".toList, path)]), ("nodeset".toList, c)] }
+    else if fl then .ok { ctl := [("ref".toList, emitGroup true path (sub "control" r))] }
+    else
+      match emitBind path (sub "bind" r) with
+      | .error e => .error e
+      | .ok b => .ok { bind := some b, ctl := [("ref".toList, emitGroup false path (sub "control" r))] }
+  | _ => .ok {}
 
 /-- the decision alone (the generated path plays no part in it) -/
 def rowCheck (r : Cells) (fl : Bool) (k : RowK) : Option Err :=
